@@ -2,6 +2,7 @@
    Statements only; proofs in Proofs/Attach.v.  Model: Model/XmlGen.v (attachment_name, item_to_xml). *)
 Require Import BB.Base.Str BB.Base.Xml BB.Base.Dict BB.Model.Types BB.Model.Eid BB.Model.XmlGen.
 Require Import BB.Gen.TablesXml BB.Model.EidSpec BB.Proofs.Attach BB.Proofs.EidNest.
+Require Import BB.Model.Post BB.Proofs.PostQuiet.
 
 (* for every generator state: the component is <parent component>/<keyword>_<n>, with n one more
    than the number of earlier attachments under the same parent with the same keyword; nothing else
@@ -48,3 +49,8 @@ Example C15_nesting_example :
   option_map (fun r => ids_of (fst r)) (rewrite_all_eids ex15 []) =
   Some [of_string "att_1"; of_string "att_1__p_1"; of_string "att_1__att_1"; of_string "att_1__att_1__p_1"].
 Proof. vm_compute. reflexivity. Qed.
+
+(* setting attachment titles touches attachments only: a tree without any comes out as it went in, for every tree and fuel *)
+Theorem C15_titles_touch_attachments_only : forall f x, no_attachment x = true -> set_attachment_titles f x = x.
+Proof. exact titles_quiet. Qed.
+Print Assumptions C15_titles_touch_attachments_only.
